@@ -221,6 +221,9 @@ func (e *FunctionCallExpr) walkChildNodes(w internalWalkFunc) {
 func (e *FunctionCallExpr) Value(ctx *hcl.EvalContext) (cty.Value, hcl.Diagnostics) {
 	var diags hcl.Diagnostics
 
+	// marks of a collection given as an expanding (...) final argument
+	var expandMarks cty.ValueMarks
+
 	var f function.Function
 	exists := false
 	hasNonNilMap := false
@@ -403,6 +406,9 @@ func (e *FunctionCallExpr) Value(ctx *hcl.EvalContext) (cty.Value, hcl.Diagnosti
 			// the collection itself, and apply any marks directly to the
 			// elements. This ensures that marks propagate correctly.
 			expandVal, marks := expandVal.Unmark()
+			// (An empty collection has no elements to carry the marks, so
+			// they are also applied to the result of the call.)
+			expandMarks = marks
 			newArgs := make([]Expression, 0, (len(args)-1)+expandVal.LengthInt())
 			newArgs = append(newArgs, args[:len(args)-1]...)
 			it := expandVal.ElementIterator()
@@ -629,7 +635,7 @@ func (e *FunctionCallExpr) Value(ctx *hcl.EvalContext) (cty.Value, hcl.Diagnosti
 		return cty.DynamicVal, diags
 	}
 
-	return resultVal, diags
+	return resultVal.WithMarks(expandMarks), diags
 }
 
 func (e *FunctionCallExpr) Range() hcl.Range {
